@@ -476,6 +476,10 @@ def solve1(pc, goal, rlimit=DEFAULT_RLIMIT, use_cvc5=False, max_refine=40):
         pass
     if r == z3.unsat:
         return 'proved', info
+    if r == z3.sat and rounds >= max_refine:
+        # the last model was still inconsistent with the true pow2 / bitlen: not a counterexample
+        info['reason'] = 'refinement limit (%d rounds)' % max_refine
+        return 'unknown', info
     if r == z3.sat:
         info['model'] = s.model()
         if os.environ.get('PYVC_DUMP_SAT'):
@@ -538,13 +542,30 @@ def verify_unit(target, enum_assign, opts=None):
                  feas_rlimit=int(os.environ.get('PYVC_FEAS_RLIMIT', ct.feas_rlimit or 200000)))
     eng.cur = fi
     eng.cur_contract = ct
+    if ct.view == 'real':
+        eng.registry = C.REGISTRY_RV
     px = PathExec(eng)
     st = State()
     env = entry_env(ct, enum_assign)
+    for gname, gshape in ct.ghost_params.items():
+        env[gname] = make_shape(gshape, gname)         # universally quantified: a fresh symbol
     env0 = dict(env)
     st.env = dict(env)
     st.entry = dict(env)
     frame = fi.glob_frame()
+    frame.contract = ct
+    if ct.closure_model:
+        # free variables of a nested function, modelled as abstract objects with symbolic fields
+        from .vals import ObjV
+        frame.closure = {}
+        for name, cm in ct.closure_model.items():
+            frame.closure[name] = ObjV(name)
+            for attr, sh in cm.get('fields', {}).items():
+                st.heap[(name, attr)] = make_shape(sh, '%s_%s' % (name, attr))
+        for pn, (obj, attr) in ct.state.items():
+            env[pn] = st.heap[(obj, attr)]
+        env0 = dict(env)
+        st.entry = dict(env)
     out = {'target': target, 'enum': enum_assign, 'obligations': [], 'notes': [], 'paths': 0,
            'file': os.path.relpath(fi.filename, '/repo') if fi.filename.startswith('/repo') else fi.filename,
            'line': fi.node.lineno, 'errors': []}
@@ -553,6 +574,9 @@ def verify_unit(target, enum_assign, opts=None):
         p = Pure(eng, st, dict(env), ct.func.__globals__, True, TRUE, fi.node.lineno)
         r = p.inline_spec(ct.requires, [], {}, extra_env=pick_env(ct.requires, env))
         st.assume(p.truthy(r))
+    if ct.requires_g is not None:
+        p = Pure(eng, st, dict(env), ct.func.__globals__, True, TRUE, fi.node.lineno)
+        st.assume(p.truthy(p.inline_spec(ct.requires_g, [], {}, extra_env=pick_env(ct.requires_g, env))))
     # vacuity: requires /\ lemma instances must be satisfiable
     s = z3.Solver()
     s.set('rlimit', DEFAULT_RLIMIT)
@@ -579,6 +603,8 @@ def verify_unit(target, enum_assign, opts=None):
             env = st2.entry          # entry values (input symbols made concrete by case splits)
             env2 = dict(env)
             env2['result'] = res
+            for pn, (obj, attr) in ct.state.items():
+                env2[pn + '_out'] = st2.heap.get((obj, attr), UnkV('field %s.%s' % (obj, attr)))
             p = Pure(eng, st2, env2, ct.func.__globals__, True, TRUE, lineno)
             # must-raise conditions do not hold on a returning path
             for excname, fn in ct.raises.items():
@@ -668,7 +694,8 @@ def verify_unit(target, enum_assign, opts=None):
             m = info['model']
             args = {k: val_to_py(v, m) for k, v in env0.items()}
             rec['model_args'] = args
-            rec['replay'] = replay(ct, args, ob.clause, ob.kind)
+            rec['replay'] = ({'status': 'not-replayable', 'why': 'the contract is over abstract closure state'}
+                             if ct.no_replay else replay(ct, args, ob.clause, ob.kind))
         elif status == 'unknown':
             rec['reason'] = info.get('reason')
             rec['failed_conjunct'] = info.get('failed_conjunct')
@@ -715,14 +742,20 @@ def replay(ct, args, clause, kind):
     """run the real function on the counter-model and evaluate the contract natively"""
     rep = {'args': {k: repr(v) for k, v in args.items()}}
     try:
-        if ct.requires is not None and not call_native(ct.requires, args):
+        if (ct.requires is not None and not call_native(ct.requires, args)) or \
+                (ct.requires_g is not None and not call_native(ct.requires_g, args)):
             rep['status'] = 'model-violates-requires-natively'
             return rep
     except Exception as e:
         rep['status'] = 'requires-error: %r' % e
         return rep
+    extra = {}
     try:
-        result = ct.func(*native_args(ct, args))
+        if ct.native_harness is not None:
+            extra = ct.native_harness(args)            # real code composed around a native model of the closure
+            result = extra.pop('result')
+        else:
+            result = ct.func(*native_args(ct, args))
         rep['result'] = repr(result)
         raised = None
     except Exception as e:
@@ -730,6 +763,7 @@ def replay(ct, args, clause, kind):
         rep['raised'] = raised
         result = None
     env = dict(args)
+    env.update(extra)
     env['result'] = result
     try:
         if raised is not None:
